@@ -230,6 +230,13 @@ class C14Episode(Episode):
                               % (wc['name'], live), once=wc['name'])
 
 
+# spelling in the file -> documented meaning (None: no flag given)
+INI_FLAGS = {'True': True, 'true': True, 'yes': True, 'On': True, '1': True,
+             'YES': True, 'False': False, 'no': False, 'off': False,
+             '0': False, None: False}
+_INI_FN = {'true': 'agree', 'false': 'veto', 'raise': 'fail'}
+
+
 def _cfg(seed, np_, beh, hooks, autostart, grace=0.3, check_delay=1.0):
     mix = [{'p': 1, 'label': 'obedient', 'delay': [0.0]}] if beh == 'obedient' \
         else [{'p': 1, 'label': 'stubborn', 'ignore': 'all'}]
@@ -285,6 +292,16 @@ class C14(Prop):
                 cases.append({'c14': {'kind': 'start', 'hooks': hooks,
                                       'beh': 'obedient', 'np': 0,
                                       'trigger': t}})
+        # the same gates configured in an ini file, the ignore-failure flag in
+        # every spelling the file format accepts
+        for hook in START_HOOKS:
+            for flag in INI_FLAGS:
+                for out in ('raise', 'false'):
+                    cases.append({'c14': {
+                        'kind': 'start', 'ini': True,
+                        'hooks': {hook: (out, INI_FLAGS[flag])},
+                        'ini_flags': {hook: flag}, 'beh': 'obedient',
+                        'np': 2, 'trigger': 'start'}})
         for combo in itertools.product(vals, repeat=2):
             hooks = dict(zip(('before_stop', 'after_stop'), combo))
             for beh in ('obedient', 'stubborn'):
@@ -315,7 +332,7 @@ class C14(Prop):
         if tier == 'quick':
             rng = random.Random('c14/%s' % master)
             cases = [c for c in cases if rng.random() < 0.1 or
-                     c['c14'].get('np') == 0]
+                     c['c14'].get('np') == 0 or c['c14'].get('ini')]
         return cases
 
     def materialize(self, case):
@@ -325,6 +342,18 @@ class C14(Prop):
             hooks = dict((k, tuple(v)) for k, v in c['hooks'].items())
             auto = c['trigger'] == 'daemon'
             cfg = _cfg(seed, c['np'], c['beh'], hooks, auto)
+            if c.get('ini'):
+                # the hooks go into the configuration file instead
+                wc = cfg['watchers'][0]
+                wc.pop('hooks', None)
+                wc['opts']['graceful_timeout'] = 0.3
+                wc['opts']['warmup_delay'] = 0
+                wc['ini_hooks'] = dict(
+                    (h, _INI_FN[o] + ('' if c['ini_flags'].get(h) is None
+                                      else ', %s' % c['ini_flags'][h]))
+                    for h, (o, f) in hooks.items())
+                cfg['from_ini'] = True
+                cfg['warmup_delay'] = 0
         else:
             hooks = dict((k, tuple(v)) for k, v in c['hooks'].items())
             cfg = _cfg(seed, c['np'], c['beh'], hooks, True)
